@@ -268,6 +268,20 @@ func Generate(rng *rand.Rand, i int, thorough bool) *p2prig.Scenario {
 		}
 		return s
 	}
+	// (thorough) the peer reported, at the handshake, fewer blocks than it has by the time the sync ends; then nothing happens
+	// for 135 s: the sync manager's periodic check judges the quiet sync peer, drops it while no other peer is a candidate,
+	// the service dials again, and the blocks announced afterwards are followed
+	if thorough && s.Engine == "legacy" && i%250 == 76 {
+		s.HonestLen = 40 + rng.Intn(100)
+		s.CheckpointHeights = []int32{int32(1 + rng.Intn(s.HonestLen-20))}
+		s.DisableCheckpoints = rng.Intn(4) == 0
+		s.InitialStore, s.PrefixLen = "genesis", 0
+		s.Nodes = []p2prig.NodeSpec{{Kind: "honest", VersionLag: 3 + rng.Intn(10)}}
+		s.DropNode0AfterSync, s.WaitReconnect, s.SlowConvergeWaitSec = false, false, 0
+		s.IdleSec = 135
+		s.Announce = []p2prig.AnnounceSpec{{Blocks: 1 + rng.Intn(2), Mode: []string{"inv", "headers", "conformant"}[rng.Intn(3)]}}
+		return s
+	}
 	// the only peer is lost during or right after the handshake - before it has sent its version message, after its
 	// version and before its verack, or as soon as the handshake is complete; the service dials it again, and what the
 	// peer offers has to be fetched over the second connection before anything is announced
@@ -481,6 +495,9 @@ func Classify(s *p2prig.Scenario) string {
 	if s.HeldWebhook {
 		cp += ",webhook-unanswered"
 	}
+	if s.IdleSec > 0 {
+		cp += ",idle-period"
+	}
 	return strings.Join([]string{s.Engine, cp, s.InitialStore, lenClass, strings.Join(kinds, "+"), strings.Join(ann, ",")}, "|")
 }
 
@@ -536,7 +553,7 @@ func body(r *ev.Run) {
 		caseID := fmt.Sprintf("s/%d", i)
 		r.Do(caseID, func() {
 			s := Generate(r.Rand(caseID), i, r.Thorough())
-			wd := 150 * time.Second
+			wd := time.Duration(150+s.SlowConvergeWaitSec+s.IdleSec) * time.Second
 			res, crash := p2prig.RunScenarioChild(r.Scratch, s, wd)
 			Record(r, s, res, crash, func(sig string) bool {
 				// containment oracles (forbidden header, checkpoint mismatch/advance) are C07's; C06 decides convergence
